@@ -15,6 +15,11 @@ Every kind needs nothing from the surrounding program except that the names it m
 CATALOGUE = [
     ("undefined-symbol", ["{I}«mov #»nosuchsym, r0"], "undefined-symbol", "error", ("T",)),
     ("undefined-in-word", ["{I}«.word 5, »nosuchsym2"], "undefined-symbol", "error", ("T",)),
+    ("extern-undefined-used", [".extern undx9q", "{I}«.word »undx9q"], "undefined-symbol", "error", ("T",)),
+    ("extern-undefined-used-imm", ["{I}«mov #»undx8q, r0", ".extern undx8q"], "undefined-symbol", "error", ("T",)),
+    ("make-late-undefined", ["{I}«make_raw \"o7\" <»nosuch8q> \".x\""], "undefined-symbol", "error", ("T",)),
+    ("ident-late-undefined", ["{I}«.ident \"a\" <»nosuch9q>"], "undefined-symbol", "error", ("T",)),
+    ("tape-name-late-undefined", ["{I}«make_wav \"o8.wav\", \"N\" <»nosuch7q>"], "undefined-symbol", "error", ("T",)),
     ("unused-undefined", ["«unusd1 = »nosuchsym5 + 1"], "undefined-symbol", "error", ("T",)),
     ("unused-div-zero", ["«unusd2 = 100 / zer0", "zer0 = 0"], "arithmetic-error", "error", None),
     ("bad-octal", ["{I}«.word »19"], "invalid-number", "error", ("T",)),
